@@ -2,7 +2,7 @@
    argument tokens in, an outcome and result tokens out.  All calls into the
    models are made here, in Gallina; the hand-written OCaml only tokenises. *)
 From Coq Require Import String Ascii.
-From Dryoc Require Import Lib.Outcome Impl.Blake2b Impl.Kdf Impl.Poly1305 Impl.Hashes Impl.SecretBox Impl.SecretStream Impl.Scalarmult.
+From Dryoc Require Import Lib.Outcome Impl.Blake2b Impl.Kdf Impl.Poly1305 Impl.Hashes Impl.SecretBox Impl.SecretStream Impl.Scalarmult Impl.PwhashStr.
 Open Scope Z_scope.
 
 Inductive tok :=
@@ -139,6 +139,21 @@ Definition run (op : string) (args : list tok) : option (outcome (list tok)) :=
   else if String.eqb op "kx.server" then
     match args with
     | [TB spk; TB ssk; TB cpk] => Some (omap (fun p => [TB (fst p); TB (snd p)]) (ScalarmultImpl.server_session_keys spk ssk cpk))
+    | _ => None end
+  else if String.eqb op "pwhash.from_string" then
+    match args with
+    | [TB str] => Some (omap (fun r => let '(h, sl, a, hl, mem, ops, sll) := r in [TB h; TB sl; TI a; TI hl; TB (le_bytes 8 mem); TB (le_bytes 8 ops); TI sll]) (PwhashStr.from_string str))
+    | _ => None end
+  else if String.eqb op "pwhash.reencode" then
+    match args with [TB str] => Some (out1 (PwhashStr.reencode str)) | _ => None end
+  else if String.eqb op "pwhash.needs_rehash" then
+    match args with
+    | [TB str; TB ops; TB mem] => Some (omap (fun b : bool => [TI (if b then 1 else 0)]) (PwhashStr.needs_rehash str (le_val ops) (le_val mem)))
+    | _ => None end
+  else if String.eqb op "pwhash.to_string" then
+    match args with
+    | [TI alg; TB ops; TB mem; TB salt; TB hash] =>
+        let '(t, m) := PwhashStr.convert_costs (le_val ops) (le_val mem) in Some (Ok [TB (PwhashStr.to_string alg t m salt hash)])
     | _ => None end
   else if String.eqb op "stream.init" then
     match args with
